@@ -90,8 +90,16 @@ func (l *letGen) use(depth int) ast.Expr {
 		return ast.F("o").With(ast.Step{Kind: ast.SMultiHash, Keys: []string{"k", "c"}, Items: []ast.Expr{inner(), ast.Cur()}})
 	case 5: // map expression reference
 		return ast.Call("map", ast.Ref(&ast.Chain{Head: ast.Head{Kind: ast.HMultiList, Items: []ast.Expr{inner(), ast.Cur()}}}), ast.A(ast.F("a")))
-	case 6: // sort_by with a key that uses the variable
-		return ast.Call("sort_by", ast.A(ast.F("r")), ast.Ref(ast.Call("not_null", ast.A(ast.F("k")), ast.A(inner()))))
+	case 6: // sort_by / min_by / max_by / group_by / map with a key that reads the variable for every element
+		key := (&ast.Chain{Head: ast.Head{Kind: ast.HMultiList, Items: []ast.Expr{ast.F("s"), inner()}}}).With(ast.Step{Kind: ast.SIndex, Index: 0})
+		fn := gen.Pick(t, "byfn", []string{"sort_by", "min_by", "max_by", "group_by", "map"})
+		if fn == "map" {
+			return ast.Call("map", ast.Ref(key), ast.A(ast.F("r")))
+		}
+		if rapid.Bool().Draw(t, "numkey") && fn != "group_by" {
+			key = (&ast.Chain{Head: ast.Head{Kind: ast.HMultiList, Items: []ast.Expr{ast.F("id"), inner()}}}).With(ast.Step{Kind: ast.SIndex, Index: 0})
+		}
+		return ast.Call(fn, ast.A(ast.F("r")), ast.Ref(key))
 	case 7: // object wildcard projection
 		return ast.F("o").With(ast.Step{Kind: ast.SStar}, pair(inner()))
 	case 8: // flatten + filter inside
@@ -225,9 +233,16 @@ func collectLets(e ast.Expr) []*ast.Let {
 func c19Doc(t *rapid.T) jv.Val {
 	arr := func() jv.Val {
 		n := rapid.IntRange(0, 4).Draw(t, "n")
+		if rapid.IntRange(0, 39).Draw(t, "long") == 0 {
+			n = gen.Pick(t, "longlen", []int{13, 33, 63, 64, 65, 100})
+		}
 		a := make([]jv.Val, n)
 		for i := range a {
-			a[i] = gen.Scalar(t)
+			if n > 4 {
+				a[i] = jv.VInt(int64(i % 7))
+			} else {
+				a[i] = gen.Scalar(t)
+			}
 		}
 		return jv.VArr(a)
 	}
@@ -235,7 +250,7 @@ func c19Doc(t *rapid.T) jv.Val {
 		n := rapid.IntRange(0, 4).Draw(t, "nr")
 		a := make([]jv.Val, n)
 		for i := range a {
-			ms := []jv.Member{{K: "id", V: jv.VInt(int64(i))}}
+			ms := []jv.Member{{K: "id", V: jv.VInt(int64(i))}, {K: "s", V: jv.VStr(gen.Pick(t, "recs", []string{"a", "b", "c", "é", "ab", ""}))}}
 			if rapid.IntRange(0, 3).Draw(t, "hask") > 0 {
 				ms = append(ms, jv.Member{K: "k", V: jv.VInt(int64(rapid.IntRange(0, 2).Draw(t, "k")))})
 			}
